@@ -121,7 +121,8 @@ func NewController(workingDirectory riofs.FS, addr api.WarehouseLocation) (*Cont
 	// ping the remote and see if it responds
 	_, err = whCtrl.lsRemote()
 	if err != nil {
-		if st, err2 := os.Stat(filepath.Join(sanitizedAddr, "objects")); whCtrl.protocol == protocolFile && err2 == nil && st.IsDir() {
+		isDir := func(p string) bool { st, e := os.Stat(p); return e == nil && st.IsDir() }
+		if whCtrl.protocol == protocolFile && (isDir(filepath.Join(sanitizedAddr, "objects")) || isDir(filepath.Join(sanitizedAddr, ".git", "objects"))) {
 			// A local repository is read from its object store, whatever its refs say: one with a detached HEAD
 			//  or with no branch at all fails the ls-remote ping and still holds every commit it ever held.
 			err = whCtrl.setCacheStorage()
@@ -202,7 +203,11 @@ func (c *Controller) setCacheStorage() error {
 		if !filepath.IsAbs(c.sanitizedAddr) {
 			return Errorf(rio.ErrUsage, "remote is not an absolute path")
 		}
-		c.store = filesystem.NewStorage(srcd_osfs.New(c.sanitizedAddr), cache.NewObjectLRUDefault())
+		gitDir := c.sanitizedAddr
+		if st, err := os.Stat(filepath.Join(gitDir, ".git")); err == nil && st.IsDir() {
+			gitDir = filepath.Join(gitDir, ".git") // a non-bare repository: its object store sits in its .git
+		}
+		c.store = filesystem.NewStorage(srcd_osfs.New(gitDir), cache.NewObjectLRUDefault())
 		return nil
 	}
 	c.allowClone = true // non-local repositories are allowed to clone
